@@ -33,6 +33,7 @@ func settingsMenu(k int) *sm.Settings {
 var localMenu = map[string]string{
 	"v4": "10.1.2.3:3868", "loop": "127.0.0.1:3868", "multi": "10.0.0.1/10.0.0.2:3868", "multiloop": "127.0.0.1/10.0.0.2:3868",
 	"v6": "[::1]:3868", "empty": "", "badport": "10.1.2.3:38x8",
+	"v6g": "[2001:db8::7]:3868", "v6z": "[fe80::1%eth0]:3868", "mix6": "127.0.0.1/10.0.0.3/[2001:db8::8]:3868",
 }
 
 type evLog struct {
@@ -420,7 +421,7 @@ func genRegs(r *RNG) string {
 }
 
 func genSMServer(r *RNG, n int, op string, emit func(string)) {
-	locals := []string{"v4", "v4", "v4", "loop", "multi", "multiloop", "v6", "empty", "badport"}
+	locals := []string{"v4", "v4", "v4", "loop", "multi", "multiloop", "v6", "v6g", "v6z", "mix6", "empty", "badport"}
 	if op == "multi" {
 		for i := 0; i < n; i++ {
 			k := 2 + r.Intn(3)
